@@ -85,6 +85,21 @@ pub enum Motif {
         pieces: Vec<(u8, u8)>,
         enemy_kf: u8,
     },
+    /// An enemy slider looks at our king through exactly one ENEMY piece while the enemy king is
+    /// boxed in by its own men; the history starts with a null move, so that whatever was
+    /// remembered about pins before the pass is put to the test (the blocker is often the only
+    /// enemy piece that can move).
+    Battery {
+        black: bool,
+        ksq: u8,
+        dir: u8,
+        dist: u8,
+        blocker_dist: u8,
+        slider_queen: bool,
+        blocker_kind: u8,
+        corner: u8,
+        boxed: u8,
+    },
     /// King near an edge with a few enemy pieces close by: mates and stalemates.
     Net {
         black: bool,
@@ -147,7 +162,9 @@ impl Builder {
             return false;
         }
         if kind == Kind::K {
-            if self.st.king_sq(side).is_some() {
+            // one king per side, never next to the other king (adjacent kings are produced on
+            // purpose only by the edit generator in gen2.rs)
+            if self.st.king_sq(side).is_some() || self.kings_adjacent_to(f, r, side.other()) {
                 return false;
             }
         } else if self.men(side) >= 15 + self.st.king_sq(side).is_some() as usize {
@@ -469,6 +486,36 @@ fn apply_motif(b: &mut Builder, m: &Motif, h: &mut Hints) {
                 b.put(file, rank, kinds[i], us);
             }
         }
+        Motif::Battery { black, ksq, dir, dist, blocker_dist, slider_queen, blocker_kind, corner, boxed } => {
+            let us = side_of(*black);
+            let them = us.other();
+            h.stm = Some(us);
+            // enemy king in a corner, boxed in by its own pawns / pieces
+            let (cf, cr) = [(0, 0), (7, 0), (0, 7), (7, 7)][*corner as usize % 4];
+            b.put(cf, cr, Kind::K, them);
+            let inward_f = if cf == 0 { 1 } else { -1 };
+            let inward_r = if cr == 0 { 1 } else { -1 };
+            let pawn_ok = |r: i32| r != 0 && r != 7;
+            for (i, (df, dr)) in [(inward_f, 0), (0, inward_r), (inward_f, inward_r)].into_iter().enumerate() {
+                if boxed & (1 << i) != 0 {
+                    let (f, r) = (cf + df, cr + dr);
+                    // a pawn that cannot move (blocked later by extras or not) or a knight/bishop
+                    let kind = if pawn_ok(r) && (them.fwd() == -inward_r) { Kind::P } else { [Kind::N, Kind::B, Kind::R][i % 3] };
+                    b.put(f, r, kind, them);
+                }
+            }
+            let k = *ksq % 64;
+            b.put(file_of(k), rank_of(k), Kind::K, us);
+            let Some(k) = b.st.king_sq(us) else { return };
+            let (kf, kr) = (file_of(k), rank_of(k));
+            let (df, dr) = DIRS8[*dir as usize % 8];
+            let diag = df != 0 && dr != 0;
+            let ds = 2 + *dist as i32 % 6;
+            let bd = 1 + *blocker_dist as i32 % (ds - 1).max(1);
+            b.put(kf + df * ds, kr + dr * ds, if *slider_queen { Kind::Q } else if diag { Kind::B } else { Kind::R }, them);
+            let bk = [Kind::N, Kind::B, Kind::R, Kind::P, Kind::Q, Kind::N][*blocker_kind as usize % 6];
+            b.put(kf + df * bd, kr + dr * bd, bk, them);
+        }
         Motif::Net { black, ksq, pieces, enemy_k } => {
             let us = side_of(*black);
             let them = us.other();
@@ -528,7 +575,9 @@ pub fn assemble(ing: &Ingredients) -> RawState {
             } else {
                 let k = st.king_sq(waiting).unwrap();
                 for a in p.attackers(k, st.stm) {
-                    st.board[a as usize] = None;
+                    if !matches!(st.board[a as usize], Some((Kind::K, _))) {
+                        st.board[a as usize] = None;
+                    }
                 }
             }
         }
@@ -612,6 +661,8 @@ fn arb_motif() -> impl Strategy<Value = Motif> {
             .prop_map(|(black, ksq, pieces, enemy_k)| Motif::Net { black, ksq, pieces, enemy_k }),
         1 => (any::<bool>(), 0u8..8, 0u8..6, 0u8..5, 0u8..5, any::<bool>(), 0u8..4)
             .prop_map(|(black, file, dir, dk, ds, queen, capturers)| Motif::PreEp { black, file, dir, dk, ds, queen, capturers }),
+        1 => (any::<bool>(), 0u8..64, 0u8..8, 0u8..6, 0u8..6, any::<bool>(), 0u8..6, 0u8..4, 0u8..8)
+            .prop_map(|(black, ksq, dir, dist, blocker_dist, slider_queen, blocker_kind, corner, boxed)| Motif::Battery { black, ksq, dir, dist, blocker_dist, slider_queen, blocker_kind, corner, boxed }),
         1 => (any::<bool>(), 0u8..6, any::<[u8; 8]>(), vec((any::<u8>(), 0u8..32), 5), 0u8..8)
             .prop_map(|(black, ep_file, pawn_ranks, pieces, enemy_kf)| Motif::Crowded { black, ep_file, pawn_ranks, pieces, enemy_kf }),
     ]
@@ -712,6 +763,9 @@ pub fn arb_case(w_dfrc: u32, w_seed: u32, w_built: u32, max_ops: usize) -> impl 
                     let sel = ing.fm_raw.wrapping_mul(40503);
                     ops.insert(0, Op::Move { sel, bias: 5 });
                 }
+                if matches!(ing.motif, Motif::Battery { .. }) {
+                    ops.insert(0, Op::Null);
+                }
             }
             PosCase { start, ops }
         })
@@ -732,7 +786,7 @@ pub fn start_board(start: &Start) -> Option<(Board, String)> {
             Board::from_fen(fen, true).ok().map(|b| (b, fen.to_string()))
         }
         Start::Built(ing) => {
-            let st = assemble(ing);
+            let st = crate::runner::guard("assemble", || assemble(ing))?;
             build(&st).map(|b| {
                 let t = format!("{:#}", b);
                 (b, t)
